@@ -1,4 +1,5 @@
 """Seeded structured generators (DESIGN.md §4.2).  Everything is derived from one Rng per family."""
+import zlib
 import itertools
 from .common import Rng, hx, opt, CRLF, hdrs_field
 
@@ -584,9 +585,36 @@ def dfield(ds):
     return "|".join(hx(d) for d in ds)
 
 
+DEFAULT_REQ_CFG = (1000, 1000, 10_000_000)     # what Request::new() / Request::default() set (C08: "defaults")
+
+
+def _lim_tokens(vals, defaults, key):
+    """Spell the limit fields of an op line.  A field whose value is the constructor's default is, for some ops
+    (chosen by a hash of the deliveries, so the choice is stable), written `d` = the harness leaves the field as the
+    constructor made it; and for some ops the object is made by `Default::default()` instead of `new()` (leading `D`).
+    The model is told the same spelling and answers for the documented defaults, so defaults that drift, or a
+    constructor path that differs from the other, show up as a disagreement on ordinary inputs."""
+    h = zlib.crc32(key.encode()) if isinstance(key, str) else zlib.crc32(key)
+    toks = []
+    for i, (v, d) in enumerate(zip(vals, defaults)):
+        if isinstance(v, str):
+            toks.append(v)
+        elif v == d and (h >> (2 * i)) & 3 != 0:
+            toks.append("d")
+        else:
+            toks.append(opt(v))
+    if (h >> 8) & 3 == 0:           # a quarter of the ops: Default::default()
+        toks = [("D" if t == "d" else "D" + t) if not t.startswith("D") else t for t in toks]
+    return toks
+
+
 def req_op(tree, ov, cfg, ds, op="REQ"):
-    return "%s %d %d %s %s %s %s" % (op, tree, ov, opt(cfg[0]), opt(cfg[1]), opt(cfg[2]), dfield(ds))
+    df = dfield(ds)
+    t = _lim_tokens(cfg, DEFAULT_REQ_CFG, df) if tree == 1 else [opt(c) for c in cfg]
+    return "%s %d %d %s %s %s %s" % (op, tree, ov, t[0], t[1], t[2], df)
 
 
 def resp_op(tree, ov, hl, ds, op="RESP"):
-    return "%s %d %d %s %s" % (op, tree, ov, opt(hl), dfield(ds))
+    df = dfield(ds)
+    t = _lim_tokens((hl,), (None,), df) if tree == 1 else [opt(hl)]
+    return "%s %d %d %s %s" % (op, tree, ov, t[0], df)
